@@ -292,8 +292,15 @@ def firstBad (cfg : Cfg) : List Ev → Option Ev
                            exchanges of that connection are registered and block before their write)
      o                     the server reads again: stalled writes complete
      f<k>                  the stalled writes fail; k=1 on udp: "message too long" (the connection stays open)
+     t<c>                  the idle timeout of connection c expires while its read loop waits for bytes (possibly
+                           in the middle of a frame): the client closes the connection
+     F<c>:<id>:<p>:<iid>:<ip>…  the server sends ONE frame: the reply (id, p); its rdata contains well-formed
+                           length-prefixed replies (iid, ip), which are data, not messages
+     A<c>:… / Z<c>         that frame in two parts: up to the embedded replies / the rest (tcp only); no other
+                           frame can be sent on c in between
   out  : `pre=<summary> log=<group>|<group>|…`, one group of `,`-separated tokens per op:
      q<E>:<c>:<id>  i<c>:<id>:<p> | i-  m<E>:<ID>:<p>  e<E>:cancel|err  x<c> | x-
+     a<c> (part of a frame written)  n<c> (harness only: the client kept c after a read timeout)
      w<E>:<c>:<id> (E's write, carrying wire id `id`, is stalled)  b<E> (E is registered and waits for the write lock)
      and one last group: k<c> for every exhausted connection the client closed (end of life)
      harness only (the model never emits them): t<E> timeout, T script abandoned, z<E> caller's buffer modified,
@@ -331,7 +338,20 @@ inductive Op where
   | ungate
   /-- the stalled writes fail (`1`: with "message too long", which leaves a UDP connection open) -/
   | fail (k : Nat)
+  /-- the idle timeout of connection `c` expires while its read loop waits for bytes -/
+  | idle (c : Nat)
+  /-- one frame: the reply `(id, p)`, whose rdata contains well-formed framed replies `inner` -/
+  | frame (c id p : Nat) (inner : List (Nat × Nat))
+  /-- the part of such a frame that precedes the embedded replies -/
+  | fhead (c id p : Nat) (inner : List (Nat × Nat))
+  /-- the rest of the frame begun on `c` -/
+  | ftail (c : Nat)
   deriving Repr
+
+def pairsOf : List Nat → Option (List (Nat × Nat))
+  | [] => some []
+  | [_] => none
+  | a :: b :: t => (pairsOf t).map ((a, b) :: ·)
 
 def opOfChars : List Char → Option Op
   | 's' :: r => match natsOf r with | some [e, cid] => some (.start e cid) | _ => none
@@ -350,6 +370,14 @@ def opOfChars : List Char → Option Op
   | ['g'] => some .gate
   | ['o'] => some .ungate
   | 'f' :: r => match natsOf r with | some [k] => some (.fail k) | _ => none
+  | 't' :: r => match natsOf r with | some [c] => some (.idle c) | _ => none
+  | 'F' :: r => match natsOf r with
+      | some (c :: id :: p :: rest) => (pairsOf rest).map (.frame c id p)
+      | _ => none
+  | 'A' :: r => match natsOf r with
+      | some (c :: id :: p :: rest) => (pairsOf rest).map (.fhead c id p)
+      | _ => none
+  | 'Z' :: r => match natsOf r with | some [c] => some (.ftail c) | _ => none
   | _ => none
 
 /-- tokens of the log -/
@@ -367,6 +395,10 @@ inductive Tok where
   | held (e c id : Nat)
   /-- `e` is registered and waits for the tcp write lock -/
   | blocked (e : Nat)
+  /-- the first part of a frame was written on `c` -/
+  | part (c : Nat)
+  /-- harness only: after a read timeout the client went on reading from `c` -/
+  | kept (c : Nat)
   /-- harness only: the rest of the script was abandoned after a timeout -/
   | abort
   /-- harness only: the caller's query buffer of `e` was modified -/
@@ -384,6 +416,8 @@ def tokOfChars : List Char → Option Tok
   | 'q' :: r => match natsOf r with | some [e, c, id] => some (.q e c id) | _ => none
   | 'w' :: r => match natsOf r with | some [e, c, id] => some (.held e c id) | _ => none
   | 'b' :: r => (natOfChars r).map .blocked
+  | 'a' :: r => (natOfChars r).map .part
+  | 'n' :: r => (natOfChars r).map .kept
   | 'i' :: r => match natsOf r with | some [c, id, p] => some (.inj c id p) | _ => none
   | 'm' :: r => match natsOf r with | some [e, mid, p] => some (.msg e mid p) | _ => none
   | 'e' :: r =>
@@ -409,6 +443,8 @@ def strOfTok : Tok → String
   | .timeout e => s!"t{e}"
   | .held e c id => s!"w{e}:{c}:{id}"
   | .blocked e => s!"b{e}"
+  | .part c => s!"a{c}"
+  | .kept c => s!"n{c}"
   | .abort => "T"
   | .mutated e => s!"z{e}"
   | .corrupt e => s!"y{e}"
@@ -422,7 +458,7 @@ def strOfGroup (g : List Tok) : String :=
 /-- canonical order inside a group: what the server did, results by exchange, stalled writes by
     (connection, id), lock waiters by exchange, queries by (connection, id), the rest -/
 def tokClass : Tok → Nat
-  | .inj _ _ _ | .noinj | .killed _ | .nokill => 0
+  | .inj _ _ _ | .noinj | .killed _ | .nokill | .part _ | .kept _ => 0
   | .msg _ _ _ | .err _ _ => 1
   | .held _ _ _ => 2
   | .blocked _ => 3
@@ -506,6 +542,10 @@ structure RunSt where
   gated : Bool := false
   /-- exchanges whose write is stalled (they are registered, their bytes are with the fake connection) -/
   held : List Nat := []
+  /-- frames of which only the first part was written: (connection, id, payload) -/
+  halfFrames : List (Nat × Nat × Nat) := []
+  /-- bookkeeping for speed only: (exchange, connection, wire id) of every registration made so far -/
+  regs : List (Nat × Nat × Nat) := []
 
 def openOn (s : State) (c : Nat) (e : Nat) : Bool :=
   match s.pcs e with
@@ -532,12 +572,17 @@ def findQ (g : List Tok) (e : Nat) : Option (Nat × Nat) :=
     | _ => none
 
 /-- Reserve (as the pool does for busy and new connections) and addQueueC -/
-def regStart (cfg : Cfg) (r : RunSt) (known : List Nat) (e c : Nat) : RunSt :=
+def regStart (cfg : Cfg) (r : RunSt) (_known : List Nat) (e c : Nat) : RunSt :=
   let isNew := c ≥ r.nconns
-  let busy := known.any (openOn r.s c)
+  -- (busy for the pool = some exchange holds the connection = its waiter table is not empty)
+  let busy := !(r.s.conns c).queue.isEmpty
   let s := if isNew || busy then step cfg r.s (.reserve c) else r.s
-  { r with s := step cfg s (.addQ e c), nconns := max r.nconns (c + 1),
-           newConn := if isNew then e :: r.newConn else r.newConn.erase e }
+  let s := step cfg s (.addQ e c)
+  { r with s := s, nconns := max r.nconns (c + 1),
+           newConn := if isNew then e :: r.newConn else r.newConn.erase e,
+           regs := match s.pcs e with
+                   | .registered c' q _ => (e, c', q) :: r.regs
+                   | _ => r.regs }
 
 /-- the server is not reading: the write stalls; on tcp, behind a stalled write of the same
     connection, the exchange does not even get the write lock -/
@@ -574,12 +619,18 @@ def drain (cfg : Cfg) (r : RunSt) (known : List Nat) : RunSt × List Tok :=
       | .empty => (r, toks)
     | _ => (r, toks)) (r, [])
 
-def inject (cfg : Cfg) (r : RunSt) (known : List Nat) (c id p : Nat) : RunSt × List Tok :=
+/-- the exchanges that were ever registered under `(c, id)` -/
+def regsOf (r : RunSt) (c id : Nat) : List Nat :=
+  (r.regs.filter fun x => x.2.1 == c && x.2.2 == id).map (·.1)
+
+def inject (cfg : Cfg) (r : RunSt) (_known : List Nat) (c id p : Nat) : RunSt × List Tok :=
   -- (the client closes connections asynchronously; a connection it closed has no exchange left,
   --  so whether it is closed is neither consulted by the harness nor here)
-  if c < r.nconns && !r.killed.contains c then
+  -- (nor can a frame be sent while another one is half written)
+  if c < r.nconns && !r.killed.contains c && !r.halfFrames.any (·.1 == c) then
     let r := { r with s := step cfg r.s (.srvReply c id p) }
-    let (r, toks) := drain cfg r known
+    -- (only an exchange registered under (c, id) can have received it)
+    let (r, toks) := drain cfg r (regsOf r c id)
     (r, .inj c id p :: toks)
   else (r, [.noinj])
 
@@ -619,7 +670,7 @@ def holdGroup (cfg : Cfg) (r : RunSt) (known : List Nat) (es : List Nat) (g : Li
       | _ =>
         let s2 := step cfg s1 (.write e true false)
         match s2.pcs e with
-        | .waiting c' q _ => ({ r with s := s2 }, toks ++ [.q e c' q])
+        | .waiting c' q _ => ({ r with s := s2, regs := (e, c', q) :: r.regs }, toks ++ [.q e c' q])
         | _ => ({ r with s := s2 }, toks)) (r, [])
   (r, errs ++ qs)
 
@@ -661,7 +712,8 @@ def settle (cfg : Cfg) (r : RunSt) (known : List Nat) (victims : List Nat) (g : 
 
 /-- connection `c` dies (the server closed it, or a write on it failed) -/
 def killConn (cfg : Cfg) (r : RunSt) (known : List Nat) (c : Nat) (g : List Tok) : RunSt × List Tok :=
-  let r1 : RunSt := { r with s := step cfg r.s (.close c), killed := c :: r.killed }
+  let r1 : RunSt := { r with s := step cfg r.s (.close c), killed := c :: r.killed,
+                             halfFrames := r.halfFrames.filter (·.1 != c) }
   let victims := known.filter (isInsideOn r1.s c)
   let r2 := killVictims cfg r1 victims
   let r2 : RunSt := { r2 with held := r2.held.filter fun e => !victims.contains e }
@@ -745,6 +797,22 @@ def runOp (cfg : Cfg) (r : RunSt) (known : List Nat) (op : Op) (g : List Tok) : 
         let res2 := openGate cfg res.1 known
         (res2.1, res.2 ++ res2.2)
       else (r, [.nokill])
+    | .idle c =>
+      -- read error (deadline) in the read loop: closeWithErr; to the exchanges the same as a dead connection
+      if c < r.nconns && !r.killed.contains c then
+        let res := killConn cfg { r with gated := false } known c g
+        let res2 := openGate cfg res.1 known
+        (res2.1, res.2 ++ res2.2)
+      else (r, [.nokill])
+    | .frame c id p _ => inject cfg r known c id p      -- the embedded replies are data
+    | .fhead c id p _ =>
+      if r.tcp && c < r.nconns && !r.killed.contains c && !r.halfFrames.any (·.1 == c) then
+        ({ r with halfFrames := (c, id, p) :: r.halfFrames }, [.part c])      -- nothing is dispatched yet
+      else (r, [.noinj])
+    | .ftail c =>
+      match r.halfFrames.find? (·.1 == c) with
+      | some (_, id, p) => inject cfg { r with halfFrames := r.halfFrames.filter (·.1 != c) } known c id p
+      | none => (r, [.noinj])
     | .gate => ({ r with gated := true }, [])
     | .ungate => if r.gated then openGate cfg r known else (r, [])
     | .fail k => failGate cfg r known k g
